@@ -817,10 +817,70 @@ def _continue_guards(fn):
                 break
 
 
+def _unroll_setattr_loops(fn):
+    """`for a in ('x', 'y'): setattr(obj, a, v)` (the names given literally, or through a local bound once to such a literal; v free of calls)
+    reads as `obj.x = v; obj.y = v`"""
+    def names(e):
+        if isinstance(e, (ast.Tuple, ast.List)) and e.elts and len(e.elts) <= 32 and all(
+                isinstance(x, ast.Constant) and isinstance(x.value, str) and x.value.isidentifier() for x in e.elts):
+            return [x.value for x in e.elts]
+        return None
+    stores = {}
+    for x in ast.walk(fn):
+        if isinstance(x, ast.Name) and isinstance(x.ctx, (ast.Store, ast.Del)):
+            stores[x.id] = stores.get(x.id, 0) + 1
+    lits = {}
+    for x in ast.walk(fn):
+        if isinstance(x, ast.Assign) and len(x.targets) == 1 and isinstance(x.targets[0], ast.Name) and stores.get(x.targets[0].id) == 1 and names(x.value):
+            lits[x.targets[0].id] = names(x.value)
+
+    def one(st):
+        if not (isinstance(st, ast.For) and isinstance(st.target, ast.Name) and not st.orelse and st.body):
+            return None
+        ns = names(st.iter) or (lits.get(st.iter.id) if isinstance(st.iter, ast.Name) else None)
+        if not ns:
+            return None
+        var = st.target.id
+        for b in st.body:
+            if not (isinstance(b, ast.Expr) and isinstance(b.value, ast.Call) and isinstance(b.value.func, ast.Name) and b.value.func.id == "setattr"
+                    and len(b.value.args) == 3 and not b.value.keywords and isinstance(b.value.args[1], ast.Name) and b.value.args[1].id == var):
+                return None
+            obj, _, val = b.value.args
+            if any(isinstance(y, ast.Call) or (isinstance(y, ast.Name) and y.id == var) for y in list(ast.walk(obj)) + list(ast.walk(val))):
+                return None
+        out = []
+        for nm in ns:
+            for b in st.body:
+                obj, _, val = b.value.args
+                a = ast.Assign(targets=[ast.Attribute(value=copy.deepcopy(obj), attr=nm, ctx=ast.Store())], value=copy.deepcopy(val))
+                _loc(a, b)
+                out.append(a)
+        return out
+
+    def rewrite(body):
+        new = []
+        for st in body:
+            r = one(st)
+            if r is not None:
+                new.extend(r)
+                continue
+            for f in ("body", "orelse", "finalbody"):
+                v = getattr(st, f, None)
+                if isinstance(v, list) and v and isinstance(v[0], ast.stmt) and not isinstance(st, (ast.FunctionDef, ast.ClassDef)):
+                    setattr(st, f, rewrite(v))
+            if isinstance(st, ast.Try):
+                for h in st.handlers:
+                    h.body = rewrite(h.body)
+            new.append(st)
+        return new
+    fn.body = rewrite(fn.body)
+
+
 def desugar_function(fn):
     """rewrite fn.body in place; returns True if something changed"""
     before = ast.dump(fn)
     _inline_nested_functions(fn)
+    _unroll_setattr_loops(fn)
     _bound_method_locals(fn)
     _split_tuple_locals(fn)
     _compose_comprehensions(fn)
@@ -1353,6 +1413,21 @@ def _return_expression(body):
     """the expression a body of returns computes: `return e`, or `if c: return a` followed by (or with an else of) such a body -> `a if c else <rest>`"""
     if len(body) == 1 and isinstance(body[0], ast.Return) and body[0].value is not None:
         return body[0].value
+    if (len(body) > 1 and isinstance(body[0], ast.Assign) and len(body[0].targets) == 1 and isinstance(body[0].targets[0], ast.Name)
+            and not any(isinstance(x, (ast.Call, ast.Lambda, ast.NamedExpr, ast.Yield, ast.Await, ast.ListComp, ast.GeneratorExp, ast.SetComp, ast.DictComp)) for x in ast.walk(body[0].value))):
+        # an explaining variable (call-free, bound once, before the returns) reads as its expression
+        nm = body[0].targets[0].id
+        if not any(isinstance(x, ast.Name) and x.id == nm and isinstance(x.ctx, (ast.Store, ast.Del)) for st in body[1:] for x in ast.walk(st)) \
+                and not any(isinstance(x, ast.Name) and x.id == nm for x in ast.walk(body[0].value)):
+            e = _return_expression(body[1:])
+            if e is not None:
+                val = body[0].value
+
+                class _S(ast.NodeTransformer):
+                    def visit_Name(self, n):
+                        return copy.deepcopy(val) if n.id == nm and isinstance(n.ctx, ast.Load) else n
+                return ast.fix_missing_locations(_S().visit(copy.deepcopy(e)))
+        return None
     if body and isinstance(body[0], ast.If) and not any(isinstance(x, ast.NamedExpr) for x in ast.walk(body[0].test)):
         a = _return_expression(body[0].body)
         rest = body[0].orelse if body[0].orelse and len(body) == 1 else body[1:] if not body[0].orelse else None
